@@ -83,8 +83,13 @@ class RaiseSpec(CallSpec):
     ev = args[1]
     cls = st.obj(ev).cls if hasattr(ev, "oid") else (ev if isinstance(ev, type) else type(ev))
     st.ghost["events"] = tuple(st.ghost.get("events", ())) + (cls.__name__,)
-    if cls is GoingUpEvent and self.during is not None:
-      return I.call_value(self.during, [args[0]], {}, st, ctx, lambda st2, r: k(st2, ev), node)
+    during = self.during
+    if isinstance(during, dict):
+      during = during.get(cls.__name__)
+    elif cls is not GoingUpEvent:
+      during = None
+    if during is not None:
+      return I.call_value(during, [args[0]], {}, st, ctx, lambda st2, r: k(st2, ev), node)
     return k(st, ev)
 
 
@@ -92,8 +97,9 @@ def native_core_patches(core, during):
   def raise_(event, *a, **kw):
     cls = event if isinstance(event, type) else type(event)
     EVENTS.append(cls.__name__)
-    if cls is GoingUpEvent and during is not None:
-      during(core)
+    d = during.get(cls.__name__) if isinstance(during, dict) else (during if cls is GoingUpEvent else None)
+    if d is not None:
+      d(core)
     return event
   core.raiseEvent = raise_
   core.raiseEventNoErrors = raise_
@@ -540,3 +546,51 @@ for _pre in ([], ["a"], [BU], ["a", BU], ["b"], ["a", "b"]):
   _mk_listen(_pre, False)
 for _pre in ([], ["c"], ["a", BU], ["a", BU, "c"]):
   _mk_listen(_pre, True)
+
+
+# ---------------------------------------------------------------- listeners of Up / GoingDown that re-enter the protocol
+
+@unit(P, target=CORE + "goUp / _goUp_stage2 (an Up listener takes and releases a deferral)")
+def a_deferral_taken_by_an_up_listener_does_not_raise_up_again(b):
+  core = new_core(b)
+  def up_listener(core):
+    d = core._get_go_up_deferral()
+    d()
+  cs = {}
+  if b.mode == "sym":
+    b.st.ghost["events"] = ()
+    cs = dict(GO_CALLS)
+    cs[EV + "raiseEvent"] = RaiseSpec({"UpEvent": up_listener})
+  else:
+    del EVENTS[:]
+    native_core_patches(core, {"UpEvent": up_listener})
+    core._get_python_version = lambda: "py"
+    core._get_platform_info = lambda: "platform"
+  return Case(POXCore.goUp, [core], calls=cs, raises={}, ensures={
+    "going_up_then_up_exactly_once_each": lambda res: events(b) == ["GoingUpEvent", "UpEvent"],
+  })
+a_deferral_taken_by_an_up_listener_does_not_raise_up_again.bound = "one deferral taken and released inside an Up listener"
+
+
+@unit(P, target=CORE + "_quit (asked again from inside a going-down listener)")
+def quit_asked_again_while_going_down(b):
+  core = new_core(b, starting_up=False)
+  def down_listener(core):
+    core._quit()
+  cs = {}
+  if b.mode == "sym":
+    b.st.ghost["events"] = ()
+    b.st.ghost[("$global", "pox.core", "core")] = core
+    cs = {EV + "raiseEvent": RaiseSpec({"GoingDownEvent": down_listener}),
+          CORE + "callLater": CallSpec("opaque", envelope="asks the scheduler to quit"),
+          "gc:collect": CallSpec("opaque", returns=lambda I, st, a, k: 0, envelope="gc"),
+          "time:sleep": CallSpec("opaque", envelope="sleep")}
+  else:
+    del EVENTS[:]
+    native_core_patches(core, {"GoingDownEvent": down_listener})
+    core.callLater = lambda *a, **k: None
+    pc.core = core
+  return Case(POXCore._quit, [core], calls=cs, raises={}, ensures={
+    "going_down_then_down_exactly_once": lambda res: events(b) == ["GoingDownEvent", "DownEvent"],
+  })
+quit_asked_again_while_going_down.bound = "one re-entrant quit"
